@@ -1391,7 +1391,9 @@ func runFirst(fields []string) string {
 		return "unknown-case"
 	}
 	first := ""
-	for t := int64(0); t < trials; t++ {
+	// wall-clock budget of the case (4 ms per trial; an unloaded machine needs ~1 ms): on a busy machine fewer instants are tried
+	budget := time.Now().Add(time.Duration(trials) * 4 * time.Millisecond)
+	for t := int64(0); t < trials && (t < 20 || time.Now().Before(budget)); t++ {
 		out, valid, hang := firstTrial(n, buildFirst(fields[2], bare), offs)
 		if hang {
 			return out
